@@ -18,6 +18,7 @@ func main() {
 	tier := flag.String("tier", "", "quick|thorough (default $VERIF_TIER or quick)")
 	repo := flag.String("repo", core.RepoDir(), "repository to analyse")
 	verif := flag.String("verif", "", "verification directory (default: directory above the binary)")
+	census := flag.Bool("census", false, "debug: print the module's named functions (baseline census)")
 	dump := flag.String("dump", "", "debug: print canonical branch conditions of a function")
 	flag.Parse()
 	if *tier == "" {
@@ -36,6 +37,12 @@ func main() {
 	if err != nil {
 		fmt.Printf("CHECKER-FAILURE load: %v\n", err)
 		os.Exit(2)
+	}
+	if *census {
+		for _, n := range p.FuncCensus() {
+			fmt.Println(n)
+		}
+		return
 	}
 	if *dump != "" {
 		rules.Dump(p, *dump)
